@@ -68,7 +68,10 @@ def gen_cases(tier, seed):
         # have changed -- content, length, mode and modification time are what they were
         rt = random.Random(seed * 613 + i)
         refresh = overwritten and sched == "os" and not unpriv and rt.random() < 0.5
-        yield {"refresh": refresh, "unpriv": unpriv, "spec": spec, "pre": pre, "flags": flags, "driver": driver, "umask": r.choice([0o022, 0o077, 0, 0o027]), "overwritten": overwritten,
+        # an ordinary user's copy over files that belong to somebody else but may be written by everybody: the data can be replaced, the
+        # mode and the times cannot be set -- that is a failed step, not a warning
+        foreign = unpriv and overwritten and rt.random() < 0.6
+        yield {"foreign": foreign, "refresh": refresh, "unpriv": unpriv, "spec": spec, "pre": pre, "flags": flags, "driver": driver, "umask": r.choice([0o022, 0o077, 0, 0o027]), "overwritten": overwritten,
                "args": ["--driver", driver, "-w", str(r.choice([0, 1, 2, 4, 8])), "--block-size", "16KB"] + flags
                        + r.choice([[], [], ["--fsync"], ["--reflink", "never"], ["--backup", "numbered"], ["--no-progress"], ["-L"], ["--gitignore"]]) + ["-r", "src", "dst"],
                "sched": sched, "sseed": r.randrange(1 << 30), "fs": "tmpfs" if r.random() < 0.25 else "ext4"}
@@ -95,6 +98,13 @@ def run_case(case):
                 if "security.capability" in (e.get("xattrs") or {}):
                     q = os.path.join(b(root), b(e["p"]))
                     os.setxattr(q, b"security.capability", b(e["xattrs"]["security.capability"]))
+        if case.get("foreign"):
+            for e in case["pre"]:
+                if e["k"] == "f":
+                    q = os.path.join(b(root), b(e["p"]))
+                    os.chown(q, 0, 0)
+                    os.chmod(q, 0o666)
+            res["counters"]["unprivileged-runs-over-somebody-else's-writable-files"] = 1
         pre = tree.snapshot(root, content=False)
         t0 = time.time_ns()
         if case["sched"] == "os":
